@@ -59,7 +59,27 @@ def joined(v):
     return str(v)
 
 
-def check(rep, text, cfg, atts, nice, mode, pre_exists):
+def alpha(n):
+    """1 -> a, 26 -> z, 27 -> aa (the documented letter component of a TractWriter UID)"""
+    out = ''
+    while n > 0:
+        n, r = divmod(n - 1, 26)
+        out = chr(ord('a') + r) + out
+    return out
+
+
+def expected_header(atts, nice):
+    """the documented header rule of get_headers / TractWriter / tracts_to_csv"""
+    if isinstance(nice, dict):
+        return [nice.get(a, a) for a in atts]
+    if isinstance(nice, (list, tuple)):
+        return list(nice)
+    if nice:
+        return [Tract.ATTRIBUTES.get(a, a) for a in atts]
+    return list(atts)
+
+
+def check(rep, text, cfg, atts, nice, mode, pre_exists, plus=None, uid=None):
     d = pytrs.PLSSDesc(text, config=cfg, parse_qq=True)
     tl = d.tracts
     why = None
@@ -69,24 +89,46 @@ def check(rep, text, cfg, atts, nice, mode, pre_exists):
     exp_l = [[getattr(t, a, f'{a}: n/a') for a in atts] for t in tl]
     if recs != exp or lists != exp_l or list(tl.iter_to_dict(atts)) != exp or list(tl.iter_to_list(atts)) != exp_l:
         why = 'records differ from the tract attributes'
+    # the same through the description's own methods (PLSSDesc.tracts_to_dict / _list / iter_*) and per tract (to_dict / to_list)
+    elif (d.tracts_to_dict(atts) != exp or d.tracts_to_list(atts) != exp_l or list(d.iter_to_dict(atts)) != exp
+          or list(d.iter_to_list(atts)) != exp_l):
+        why = 'PLSSDesc.tracts_to_dict / tracts_to_list / iter_to_dict / iter_to_list differ from the tract attributes'
+    elif [t.to_dict(atts) for t in tl] != exp or [t.to_list(atts) for t in tl] != exp_l:
+        why = 'Tract.to_dict / to_list differ from the tract attributes'
+    elif Tract.get_headers(atts, nice, plus) != expected_header(atts, nice) + list(plus or []):
+        why = 'get_headers does not follow the documented header rule'
     tmp = tempfile.mkdtemp(prefix='pytrs_verif_')
     try:
-        for writer in ('tracts_to_csv', 'TractWriter'):
+        for writer in ('tracts_to_csv', 'PLSSDesc.tracts_to_csv', 'TractWriter'):
             if why:
                 break
             fp = os.path.join(tmp, writer + '.csv')
             if pre_exists:
                 with open(fp, 'w', newline='') as f:
                     f.write('old,row\r\n')
+            extra_h, extra_rows = [], [[] for _ in exp_l]
             try:
                 if writer == 'tracts_to_csv':
                     tl.tracts_to_csv(atts, fp, mode, nice_headers=nice)
+                elif writer == 'PLSSDesc.tracts_to_csv':
+                    d.tracts_to_csv(atts, fp, mode, nice_headers=nice)
                 else:
-                    w = TractWriter(atts, fp, mode, nice_headers=nice)
-                    n_written = w.write(d)
+                    kw = {}
+                    if plus:
+                        kw['plus_cols'] = list(plus)
+                    if uid is not None:
+                        kw['uid'] = uid
+                    w = TractWriter(atts, fp, mode, nice_headers=nice, **kw)
+                    n_none0 = w.write(None)              # nothing to write: no row, but the UID number moves on
+                    vals = [f'v{j}' for j in range(len(plus or []))]
+                    n_written = w.write(d, plus_cols=vals) if plus else w.write(d)
                     n_none = w.write(None)
                     w.close()
-                    if n_written != len(exp_l) or n_none != 0:
+                    extra_h = list(plus or []) + (['UID'] if uid is not None else [])
+                    n = len(exp_l)
+                    extra_rows = [vals + ([f'{str(uid + 1).rjust(4, "0")}.{alpha(j + 1)}-{alpha(n)}'] if uid is not None else [])
+                                  for j in range(n)]
+                    if n_written != len(exp_l) or n_none != 0 or n_none0 != 0:
                         why = f'TractWriter.write reports {n_written} rows written for {len(exp_l)} tracts (and {n_none} for nothing to write)'
                         break
             except Exception as e:  # noqa
@@ -95,8 +137,8 @@ def check(rep, text, cfg, atts, nice, mode, pre_exists):
             with open(fp, newline='') as f:
                 rows = [list(r) for r in csv.reader(f)]
             old = [['old', 'row']] if (pre_exists and mode == 'a') else []
-            hdr = [] if (pre_exists and mode == 'a') else [[Tract.ATTRIBUTES.get(a, a) if nice else a for a in atts]]
-            body = [[joined(v) for v in row] for row in exp_l]
+            hdr = [] if (pre_exists and mode == 'a') else [expected_header(atts, nice) + extra_h]
+            body = [[joined(v) for v in row] + ex for row, ex in zip(exp_l, extra_rows)]
             # csv.reader yields [] for an empty line: a row of one empty cell is written as '""' -> ['']
             if rows != old + hdr + body:
                 why = f'{writer}: file content differs from one header row plus one row per tract with joined cell contents'
@@ -106,7 +148,7 @@ def check(rep, text, cfg, atts, nice, mode, pre_exists):
         os.rmdir(tmp)
     if why:
         rep.violation('failing-input', {'text': text, 'config': cfg, 'attributes': atts, 'nice_headers': nice, 'mode': mode,
-                                        'pre_exists': pre_exists, 'why': why})
+                                        'pre_exists': pre_exists, 'plus_cols': plus, 'uid': uid, 'why': why})
     return len(tl)
 
 
@@ -125,7 +167,18 @@ def run(ctx):
         nice = r.chance(1, 3)
         mode = r.choice(['w', 'a'])
         pre = r.chance(1, 2)
-        n = safely(rep, 'export', check, text, cfg, atts, nice, mode, pre) or 0
+        # the documented forms of nice_headers: True / None / False / a list of strings / a dict keyed by attribute name
+        nice_form = nice
+        k2 = r.below(8)
+        if k2 == 0:
+            nice_form = None
+        elif k2 == 1:
+            nice_form = [f'H{j}' for j in range(len(atts))]
+        elif k2 == 2:
+            nice_form = {a: f'hdr {a}' for a in atts if r.chance(1, 2)}
+        plus = [f'extra{j}' for j in range(r.range(1, 2))] if r.chance(1, 5) else None
+        uid = r.choice([0, 26, 998]) if r.chance(1, 5) else None
+        n = safely(rep, 'export', check, text, cfg, atts, nice_form, mode, pre, plus, uid) or 0
         rep.count()
         if n >= 1 and len(atts) >= 2:
             rep.nontrivial((text, tuple(atts), nice, mode, pre))
@@ -145,5 +198,5 @@ def replay(payload):
     rep = Report('C19', 'quick', 0)
     p = payload.get('replay', {})
     if 'attributes' in p and 'text' in p:
-        check(rep, p['text'], p['config'], p['attributes'], p['nice_headers'], p['mode'], p['pre_exists'])
+        check(rep, p['text'], p['config'], p['attributes'], p['nice_headers'], p['mode'], p['pre_exists'], p.get('plus_cols'), p.get('uid'))
     return not rep.violations
